@@ -15,6 +15,9 @@ use vsim::{
     core::{self, BatchCfg, Engine, Part, RunCtx},
 };
 
+#[global_allocator]
+static ALLOC: core::CountingAlloc = core::CountingAlloc;
+
 fn verif_dir() -> PathBuf {
     std::env::var_os("VERIF_DIR").map(PathBuf::from).unwrap_or_else(|| PathBuf::from("/verif"))
 }
